@@ -400,6 +400,35 @@ func runC12(c *core.Ctx) core.Meta {
 		st5.Ob(false)
 		c.ReportAt("R12.5", u.Target.Fn(), u.Target.Instr.Pos(), "start:guard", "a command is started on a path that did not find the queue idle (IsRunning == false): two commands of one queue overlap")
 	}
+	// a call that dequeues: CommandQueue.Dequeue itself or a function of the package that reaches it
+	deqFn := c.SSAFunc(driverPkg, "CommandQueue.Dequeue")
+	deqReach := map[*ssa.Function]bool{}
+	for changed := true; changed; {
+		changed = false
+		for _, fn := range pd.Funcs {
+			if deqReach[fn] {
+				continue
+			}
+			for _, b := range fn.Blocks {
+				for _, in := range b.Instrs {
+					if cc := core.CallOf(in); cc != nil {
+						if cal := cc.StaticCallee(); cal != nil && (cal == deqFn || deqReach[cal]) && !deqReach[fn] {
+							deqReach[fn] = true
+							changed = true
+						}
+					}
+				}
+			}
+		}
+	}
+	dequeues := func(in ssa.Instruction) bool {
+		cc := core.CallOf(in)
+		if cc == nil {
+			return false
+		}
+		cal := cc.StaticCallee()
+		return cal != nil && (cal == deqFn || deqReach[cal])
+	}
 	pd.Instrs(func(fn *ssa.Function, in ssa.Instruction) {
 		s, ok := storeToField(in, "CommandQueue.IsRunning")
 		if !ok {
@@ -413,7 +442,7 @@ func runC12(c *core.Ctx) core.Meta {
 		if !b {
 			paired := false
 			for _, i2 := range in.Block().Instrs {
-				if core.IsCall(i2, core.ModPath+"/amd/driver.CommandQueue.Dequeue") {
+				if dequeues(i2) {
 					paired = true
 				}
 			}
@@ -421,7 +450,7 @@ func runC12(c *core.Ctx) core.Meta {
 			if !paired {
 				for _, b2 := range fn.Blocks {
 					for _, i2 := range b2.Instrs {
-						if core.IsCall(i2, core.ModPath+"/amd/driver.CommandQueue.Dequeue") && in.Block().Dominates(b2) {
+						if dequeues(i2) && in.Block().Dominates(b2) {
 							paired = true
 						}
 					}
@@ -590,7 +619,7 @@ func runC12(c *core.Ctx) core.Meta {
 			if !ok {
 				continue
 			}
-			f := core.LoadedField(iff.Cond)
+			f := condField(iff.Cond)
 			if f == nil || core.ShortFieldID(f) != "Driver.engineRunning" {
 				continue
 			}
@@ -639,7 +668,7 @@ func runC12(c *core.Ctx) core.Meta {
 						}
 					}
 					if iff, ok := n.Instr.(*ssa.If); ok {
-						if f := core.LoadedField(iff.Cond); f != nil && core.ShortFieldID(f) == reqField {
+						if f := condField(iff.Cond); f != nil && core.ShortFieldID(f) == reqField {
 							after, _ := gre.Reach([]core.State{{N: n.Succs[0]}}, core.WalkOpts{})
 							for m := range after {
 								if cc := core.CallOf(m.Instr); cc != nil && cc.IsInvoke() && cc.Method.Name() == "Run" {
@@ -855,6 +884,52 @@ func runC12(c *core.Ctx) core.Meta {
 			st9.Ob(okW && late == nil)
 			if late != nil {
 				c.ReportAt("R12.9", late.Fn(), late.Instr.Pos(), "start-task-after-release:"+core.FuncName(n.Fn()), "tracing.StartTask for the command is reachable after "+core.InstrString(n.Instr)+" in "+core.FuncName(n.Fn())+", which can release the threads waiting for the queue: the task is started for a command that is already finished, possibly after the application closed the tracers (nil-map panic in the DB tracer)")
+			}
+		}
+	}
+
+	// ---------------- R12.14 a command's task is closed before its waiters are released ----------------
+	st14 := c.Rule("R12.14", "in every function of the driver that retires a command (calls CommandQueue.Dequeue), helpers of the package expanded, no call into the tracing package (EndTask, StartTask, AddTaskStep ...) is reachable after the Dequeue within the same pass: Dequeue releases the application thread, which reads the kernel-time and busy-time tracers right after the last command (Runner.Run reports without waiting for the engine); a task that is ended afterwards is missing from that report or races with it", 4)
+	if deq := c.SSAFunc(driverPkg, "CommandQueue.Dequeue"); deq != nil {
+		isTrace := func(in ssa.Instruction) bool {
+			cc := core.CallOf(in)
+			if cc == nil {
+				return false
+			}
+			cal := cc.StaticCallee()
+			return cal != nil && cal.Pkg != nil && strings.HasSuffix(cal.Pkg.Pkg.Path(), "/tracing")
+		}
+		for _, fn := range pd.Funcs {
+			direct := false
+			for _, b := range fn.Blocks {
+				for _, in := range b.Instrs {
+					if dequeues(in) {
+						direct = true
+					}
+				}
+			}
+			if !direct {
+				continue
+			}
+			c.MarkAnalysed(fn)
+			g := core.BuildGraph(fn, 2, func(cal *ssa.Function) bool { return cal.Pkg == fn.Pkg && cal != deq })
+			for _, n := range g.Nodes {
+				cc := core.CallOf(n.Instr)
+				if cc == nil || cc.StaticCallee() != deq {
+					continue
+				}
+				st14.Instances++
+				var late *core.Node
+				okW := g.Walk(core.After(n, nil), core.WalkOpts{ForwardOnly: true}, func(x core.State) {
+					if isTrace(x.N.Instr) && late == nil {
+						late = x.N
+					}
+				})
+				st14.Ob(okW && late == nil)
+				st14.Sample("%s: nothing is traced after Dequeue: %v", core.FuncName(fn), late == nil)
+				if late != nil {
+					c.ReportAt("R12.14", fn, n.Instr.Pos(), "trace-after-release:"+core.FuncName(fn), core.InstrString(late.Instr)+" ("+core.FuncName(late.Fn())+") is reachable after the command was dequeued: the application thread waiting in DrainCommandQueue is released first and can read or close the tracers while the command's task is still open; the last command's time is missing from the report in that schedule")
+				}
 			}
 		}
 	}
